@@ -1736,7 +1736,7 @@ pub struct RelationBuilder {
     name: String,
     version_constraint: Option<(VersionConstraint, Version)>,
     archqual: Option<String>,
-    architectures: Vec<String>,
+    architectures: Option<Vec<String>>,
     profiles: Vec<Vec<BuildProfile>>,
 }
 
@@ -1747,7 +1747,7 @@ impl RelationBuilder {
             name: name.to_string(),
             version_constraint: None,
             archqual: None,
-            architectures: vec![],
+            architectures: None,
             profiles: vec![],
         }
     }
@@ -1766,7 +1766,7 @@ impl RelationBuilder {
 
     /// Set the architectures for this relation
     pub fn architectures(mut self, architectures: Vec<String>) -> Self {
-        self.architectures = architectures;
+        self.architectures = Some(architectures);
         self
     }
 
@@ -1788,7 +1788,9 @@ impl RelationBuilder {
         if let Some(archqual) = &self.archqual {
             relation.set_archqual(archqual);
         }
-        relation.set_architectures(self.architectures.iter().map(|s| s.as_str()));
+        if let Some(architectures) = &self.architectures {
+            relation.set_architectures(architectures.iter().map(|s| s.as_str()));
+        }
         for profile in &self.profiles {
             relation.add_profile(profile);
         }
